@@ -72,8 +72,8 @@ pub fn prop(c: &Case, log: &mut CaseLog) -> Verdict {
     log.label(format!("kind:{:?}", d.kind));
     log.label(if (oa, ob) == drange { "at:definition" } else { "at:use" });
     let to_rng = |a: usize, b: usize| -> Rng {
-        let (l1, c1) = r.line_col(a);
-        let (l2, c2) = r.line_col(b);
+        let (l1, c1) = r.line_col16(a);
+        let (l2, c2) = r.line_col16(b);
         ((l1 as u64 - 1, c1 as u64 - 1), (l2 as u64 - 1, c2 as u64 - 1))
     };
     // expected edit set: the definition and every use component bound to it; uses in dead code are optional
@@ -99,6 +99,8 @@ pub fn prop(c: &Case, log: &mut CaseLog) -> Verdict {
     log.label_if(must.len() >= 3, "occurrences>=3");
     log.label_if(p.features.contains("shadowing_definition_at_the_zero_page_boundary"), "shadowing-definition-at-zp-boundary");
     log.label_if(p.features.contains("forward_ref_to_shadowing_definition"), "forward-ref-to-shadowing-definition");
+    log.label_if(p.features.contains("comments_between_tokens"), "comments-between-tokens");
+    log.label_if(p.features.contains("characters_of_two_utf16_units"), "characters-of-two-utf16-units");
     {
         // an occurrence of the renamed symbol inside a test
         let tests: Vec<(usize, usize)> = text.match_indices(".test ").map(|(i, _)| (i, text[i..].find("\n}").map(|e| i + e).unwrap_or(text.len()))).collect();
@@ -118,7 +120,7 @@ pub fn prop(c: &Case, log: &mut CaseLog) -> Verdict {
         } else {
             s.client.did_change(&uri, &text, s.version);
         }
-        let (l, col) = r.line_col(oa + (ob - oa) / 2);
+        let (l, col) = r.line_col16(oa + (ob - oa) / 2);
         let pos = json!({"line": l - 1, "character": col - 1});
         let prep = s.client.request("textDocument/prepareRename", json!({"textDocument": {"uri": uri}, "position": pos}), t)?;
         if prep.is_null() {
